@@ -60,7 +60,7 @@ RULE = ("type-directed random TsCore programs (aliases, generic aliases, interfa
         "Date/Map/Set/typed arrays, template literals) are printed as TypeScript, compiled by the REAL extract+emit_code, the emitted module is "
         "loaded against the REAL runtime and every exported validator is run on generated members, mutated near-misses and hostile values. "
         "Three bit-vectors per export: implementation, Lean compiler model (lower → IR → printer → runtime model) and the Lean declarative "
-        "reference ⟦·⟧ᵀˢ. tie = impl vs model; search = impl vs reference. non-trivial = program with both accepted and rejected values. A second pass takes the `keyof T` / `T[K]` "
+        "reference ⟦·⟧ᵀˢ. tie = impl vs model; search = impl vs reference. non-trivial = program with both accepted and rejected values. A second pass takes the `keyof T` / `T[K]` / `Exclude<A, B>` "
         "requests of the C07 generator (objects, unions, index signatures, arrays, tuples with rest indexed by literals, unions of literals and `number`): same three-way comparison "
         "with TypeScript's meaning of the operator as the reference")
 
